@@ -190,6 +190,21 @@ def tpRender(self, md, section, args,
                     finally:
                         md._pop()
                     return items
+            if args.get('skip_unauthorized') and \
+               getattr(md, 'guarded_getitem', None) is not None:
+                # The rows leave out what the user may not see (see
+                # tpRenderTABLE); the state must not list it either.
+                def get_items(node, get_all=get_items,
+                              getitem=md.guarded_getitem):
+                    items = get_all(node)
+                    allowed = []
+                    for index in range(len(items)):
+                        try:
+                            getitem(items, index)
+                        except ValidationError:
+                            continue
+                        allowed.append(items[index])
+                    return allowed
             state = [id, tpValuesIds(self, get_items, args)],
         else:
             if 'tree-s' in md:
